@@ -99,12 +99,13 @@ func (b *bmpClient) tryConnect() *net.TCPConn {
 			slog.String("Key", b.host.String()))
 		conn, err := net.Dial("tcp", b.host.String())
 		if err != nil {
+			// (not a plain sleep: a client that is stopped while it waits for
+			// its next attempt ends now, not up to half a minute later)
 			select {
 			case <-b.dead:
 				return nil
-			default:
+			case <-time.After(time.Duration(interval) * time.Second):
 			}
-			time.Sleep(time.Duration(interval) * time.Second)
 			if interval < 30 {
 				interval *= 2
 			}
